@@ -440,6 +440,13 @@ def getitem(ex, st: State, o: V, i: V, node):
         missing.assume(z3.Not(has))
         if ex.feasible(missing):
             dflt = ex.ctx.defaultdict_factory(o) if hasattr(ex.ctx, 'defaultdict_factory') else None
+            if dflt is None:
+                # pre-state dict declared by the contract as defaultdict(<kind>) (FnCheck.defaultdict_objects)
+                for oid_e, kind in getattr(ex.ctx, 'sym_defaultdicts', ()):
+                    if ex.entails(missing, o.e == oid_e):
+                        from .models_calls import DD_FACTORIES
+                        dflt = DD_FACTORIES[kind]
+                        break
             if dflt is not None:
                 nv = dflt(ex, missing)
                 dict_set(ex, missing, o, i, nv)
@@ -585,11 +592,16 @@ def comprehension(ex, st: State, node):
         if isinstance(it, Raise):
             outs.append((s, it))
             continue
+        if it.kind == 'none':
+            outs.append((s, Raise(ex.mk_exc('TypeError', node))))     # 'NoneType' object is not iterable
+            continue
         items = concrete_items(ex, s, it)
         if items is None:
             r = map_comprehension(ex, s, it, node, gen)
             if r is None:
                 r = filter_comprehension(ex, s, it, node, gen)
+            if r is None:
+                r = alloc_map_comprehension(ex, s, it, node, gen)
             if r is None:
                 raise Unsupported('comprehension over symbolic-length iterable')
             outs.append((s, r))
@@ -679,6 +691,104 @@ def map_comprehension(ex, st: State, it: V, node, gen):
     st.assume(z3.Length(rs) == z3.Length(seq))
     st.assume(z3.ForAll([j], z3.Implies(z3.And(j >= 0, j < z3.Length(seq)), rs[j] == mf[fname](seq[j]))))
     st.set_list_seq(r, rs)
+    return r
+
+
+def _consts_of(e, acc=None, seen=None):
+    acc = set() if acc is None else acc
+    seen = set() if seen is None else seen
+    if e.get_id() in seen:
+        return acc
+    seen.add(e.get_id())
+    if z3.is_const(e) and e.decl().kind() == z3.Z3_OP_UNINTERPRETED:
+        acc.add(e.decl().name())
+    for c in e.children():
+        _consts_of(c, acc, seen)
+    return acc
+
+
+def _amc_fail(ex, why):
+    ex.ctx.unsupported_notes.append('allocating comprehension not generalised: ' + why)
+    return None
+
+
+def alloc_map_comprehension(ex, st: State, it: V, node, gen):
+    """[Cls(..., x, ...) for x in seq] over a symbolic sequence: the element expression is executed ONCE for a generic
+    position; it must have exactly one feasible outcome, allocate exactly one object o, return it, and change the
+    heap only at o. The result is then a list of pairwise distinct fresh objects (skolem function alloc(j)) whose
+    members are the executed element's members with the position generalised; all other objects are unchanged."""
+    from .state import LOOP_BASE
+    from .vals import _counter
+    if gen.ifs or not isinstance(node, ast.ListComp) or not isinstance(gen.target, ast.Name):
+        return None
+    seq, n, elem = iter_seq(ex, st, it)
+    if n is None:
+        return _amc_fail(ex, 'no-symbolic-seq')
+    mark = next(_counter)
+    qi = fresh(IntS, 'mi')
+    body = st.fork()
+    body.assume(z3.And(qi >= 0, qi < n))
+    body.sym_alloc = True
+    body.locals = dict(body.locals)
+    body.locals[gen.target.id] = elem(body, qi)
+    for name in list(body.arr):
+        body.get_arr(name)
+    a_before = body.get_arr('A')
+    before = dict(body.arr)
+    outs = [(s1, v) for s1, v in ex.ev(node.elt, body) if ex.feasible(s1)]
+    if len(outs) != 1 or isinstance(outs[0][1], Raise):
+        return _amc_fail(ex, 'outcomes')
+    s1, v = outs[0]
+    if v.kind != 'ref' or not z3.is_const(v.e):
+        return _amc_fail(ex, 'not-ref')
+    o = v.e
+    # the only allocation is o: A after == Store(A before, o, True)
+    if not z3.eq(z3.simplify(s1.get_arr('A')), z3.simplify(z3.Store(a_before, o, z3.BoolVal(True)))):
+        return _amc_fail(ex, 'A-changed')
+    changed = {}
+    for name, arr in s1.arr.items():
+        if name == 'A':
+            continue
+        base = before.get(name)
+        if base is None:
+            base = z3.Const(f'H{st.epoch}.{name}', arr.sort())
+            if st.arr.get(name) is None:
+                st.arr[name] = base
+        if z3.eq(arr, base):
+            continue
+        a = arr
+        while z3.is_store(a) and z3.eq(z3.simplify(a.arg(1)), o):
+            a = a.arg(0)
+        if not z3.eq(a, base):
+            return _amc_fail(ex, 'foreign-write')                      # writes to something else than the new object
+        val = z3.simplify(z3.Select(arr, o))
+        late = {c for c in _consts_of(val) if '!' in c and c.rsplit('!', 1)[1].isdigit()
+                and int(c.rsplit('!', 1)[1]) > mark} - {qi.decl().name(), o.decl().name()}
+        if late:
+            return _amc_fail(ex, 'late-consts')                      # per-element fresh values cannot be generalised
+        changed[name] = (base, val)
+    alloc_fn = z3.Function(fresh_name('alloc'), IntS, IntS)
+    pos_fn = z3.Function(fresh_name('alloc_pos'), IntS, IntS)
+    j, p = z3.Int('j!am'), z3.Int('p!am')
+    rng = z3.And(j >= 0, j < n)
+    a_new = fresh(a_before.sort(), 'A')
+    st.assume(z3.ForAll([j], z3.Implies(rng, z3.And(alloc_fn(j) >= LOOP_BASE, z3.Not(z3.Select(a_before, alloc_fn(j))),
+                                                   z3.Select(a_new, alloc_fn(j)), pos_fn(alloc_fn(j)) == j))))
+    st.assume(z3.ForAll([p], z3.Implies(z3.Select(a_before, p), z3.Select(a_new, p))))
+    st.arr['A'] = a_new
+    old = z3.Or(p < LOOP_BASE, z3.Select(a_before, p))
+    for name, (base, val) in changed.items():
+        x_new = fresh(base.sort(), 'M.' + name)
+        st.assume(z3.ForAll([p], z3.Implies(old, z3.Select(x_new, p) == z3.Select(base, p))))
+        st.assume(z3.ForAll([j], z3.Implies(rng, z3.Select(x_new, alloc_fn(j))
+                                           == z3.substitute(val, (qi, j), (o, alloc_fn(j))))))
+        st.arr[name] = x_new
+    rs = fresh(SeqVal, 'allocated')
+    st.assume(z3.Length(rs) == n)
+    st.assume(z3.ForAll([j], z3.Implies(rng, rs[j] == Val.ref(alloc_fn(j)))))
+    r = st.alloc('list')
+    st.set_list_seq(r, rs)
+    st.ghost['c:last_alloc_map'] = {'alloc': alloc_fn, 'result': rs, 'source': seq, 'n': n}
     return r
 
 
